@@ -33,8 +33,11 @@ double now_s()
     return ts.tv_sec + ts.tv_nsec / 1e9;
 }
 
-enum Role { R_ACCEPT = 0, R_REFUSE = 1, R_SILENT = 2 };
-const char *role_name(int r) { return r == R_ACCEPT ? "accept" : r == R_REFUSE ? "refuse" : "silent"; }
+// R_UNBIND: an address of the other family than the configured xcm.local_addr - the source cannot be
+// bound for it, the attempt fails before any connect()
+enum Role { R_ACCEPT = 0, R_REFUSE = 1, R_SILENT = 2, R_UNBIND = 3 };
+const char *role_name(int r) { return r == R_ACCEPT ? "accept" : r == R_REFUSE ? "refuse" : r == R_SILENT ? "silent" : "other family than xcm.local_addr"; }
+const int E_UNBIND = -2; // stands for the errno of the failed bind: EAFNOSUPPORT (EINVAL on older kernels)
 
 struct Listeners {
     int port = 0;
@@ -207,9 +210,12 @@ public:
             L.push_back(a);
         }
         if (L.empty()) L.push_back({"127.0.0.10", false, R_ACCEPT});
+        bool keep6 = cfg.ch(2) == 1;
         if (use_local >= 2) {
-            // the local address must be bindable for every attempt: one family only
-            for (auto &a : L) if (a.v6) { a.v6 = false; a.ip = "127.0.1.11"; a.role = R_REFUSE; }
+            // the local address (IPv4) can be the source of IPv4 attempts only: IPv6 addresses in the
+            // answer are either left out, or stay and cannot be used whatever their listener does
+            for (auto &a : L) if (a.v6) { if (keep6) a.role = R_UNBIND; else { a.v6 = false; a.ip = "127.0.1.11"; a.role = R_REFUSE; } }
+            if (keep6) c.cls("local-addr:answer-has-other-family");
         }
         bool any_v6 = false;
         for (auto &a : L) any_v6 |= a.v6;
@@ -223,7 +229,8 @@ public:
         double dns_to = rmode == 8 ? 0.08 + 0.01 * (seed % 10) : -1;
         // ---- expected outcome
         struct Exp { bool connect = false; std::vector<std::string> targets; std::vector<int> errs; double min_t = 0, max_t = 0; std::vector<std::string> log4, log6; } ex;
-        auto role_err = [](int r) { return r == R_REFUSE ? ECONNREFUSED : ETIMEDOUT; };
+        auto role_err = [](int r) { return r == R_REFUSE ? ECONNREFUSED : r == R_UNBIND ? E_UNBIND : ETIMEDOUT; };
+        auto push_err = [](std::vector<int> &v, int e) { if (e == E_UNBIND) { v.push_back(EAFNOSUPPORT); v.push_back(EINVAL); } else v.push_back(e); };
         if (rmode == 7 || rmode == 8) {
             ex.errs = {ENOENT};
             ex.min_t = rmode == 8 ? dns_to - 0.01 : 0;
@@ -233,12 +240,13 @@ public:
             double t = rdelay / 1000.0;
             int last = 0;
             for (size_t i = 0; i < lim; i++) {
+                if (M[i].role == R_UNBIND) { last = E_UNBIND; continue; }
                 (M[i].v6 ? ex.log6 : ex.log4).push_back(M[i].ip);
                 if (M[i].role == R_ACCEPT) { ex.connect = true; ex.targets = {M[i].ip}; break; }
                 if (M[i].role == R_SILENT) t += cto;
                 last = role_err(M[i].role);
             }
-            if (!ex.connect) ex.errs = {last};
+            if (!ex.connect) push_err(ex.errs, last);
             ex.min_t = t - rdelay / 1000.0 - 0.012;
             ex.max_t = t * 3 + 2;
         } else {
@@ -249,13 +257,14 @@ public:
             bool has4 = false, has6 = false;
             std::string a4, a6;
             for (auto &a : M) {
+                if (a.role == R_UNBIND) { has6 = true; e6 = E_UNBIND; continue; }
                 if (a.v6) { has6 = true; if (c6) continue; ex.log6.push_back(a.ip); if (a.role == R_ACCEPT) { c6 = true; a6 = a.ip; } else { if (a.role == R_SILENT) t6 += cto; e6 = role_err(a.role); } }
                 else { has4 = true; if (c4) continue; ex.log4.push_back(a.ip); if (a.role == R_ACCEPT) { c4 = true; a4 = a.ip; } else { if (a.role == R_SILENT) t4 += cto; e4 = role_err(a.role); } }
             }
             ex.connect = c4 || c6;
             if (c4) ex.targets.push_back(a4);
             if (c6) ex.targets.push_back(a6);
-            if (!ex.connect) { if (has4) ex.errs.push_back(e4); if (has6) ex.errs.push_back(e6); }
+            if (!ex.connect) { if (has4) push_err(ex.errs, e4); if (has6) push_err(ex.errs, e6); }
             double tmin = ex.connect ? std::min(c4 ? t4 : 1e9, c6 ? t6 : 1e9) : std::max(has4 ? t4 : 0, has6 ? t6 : 0);
             ex.min_t = tmin - 0.012;
             ex.max_t = (std::max(t4, t6) + rdelay / 1000.0) * 3 + 2;
@@ -408,7 +417,7 @@ public:
                 std::vector<std::string> all;
                 for (int i = 0; i < sh_connect_log_len(); i++) { std::string l = sh_connect_log(i); all.push_back(l.substr(0, l.find(' '))); }
                 size_t k = 0;
-                for (auto &a : M) { if (k >= all.size()) break; VF_CHECK(all[k] == a.ip, "C13: %s: attempt #%zu went to %s, list order says %s", ALGO[algo], k, all[k].c_str(), a.ip.c_str()); k++; }
+                for (auto &a : M) { if (a.role == R_UNBIND) continue; if (k >= all.size()) break; VF_CHECK(all[k] == a.ip, "C13: %s: attempt #%zu went to %s, list order says %s", ALGO[algo], k, all[k].c_str(), a.ip.c_str()); k++; }
             }
         } else
             VF_CHECK(sh_connect_log_len() == 0, "C13: resolution failed, yet connect() was called (%s)", got_log.c_str());
